@@ -12,7 +12,8 @@
      formula cr c a li q                q == credit_a * score partial_credit ((best - surplus)/n_expect), score p x =
                                         max(0,x), zeroed below 1 when p is off;  surplus = |li| - |la| (truncated at 0)
      unit_on cr la                      the credits the subgrader awards against the items of la lie in [0,1]
-   All statements are of the form "if the model returns a grade, then ...": that it does return is C07_returns. *)
+   Statements are of the form "if the model returns a grade, then ..."; C07_returns shows that the executable model always
+   does when no input error is due (and the subgrader answers), without any bound. *)
 From Coq Require Import ZArith QArith List Bool Arith Permutation.
 From Verif.Lib Require Import QRound.
 From Verif.Model Require Import Result Munkres SingleList.
@@ -121,17 +122,22 @@ Theorem C07_length_error_counts_split_pieces : forall A (cr : A -> str -> res sr
   check_response cr solve c a s = inr (ErrLength (length (al_items a)) (length (split (c_delim c) s))).
 Proof. exact slg_length_error_string. Qed.
 
-(* with the model's own solver a grade IS returned when no error applies, as long as n * D < sys.maxsize
-   (D a common denominator of the credits, n the longer of the two lists) *)
+(* with the model's own solver a grade IS returned whenever no input error applies and the subgrader answers
+   (termination of the solver is C06's theorem for arbitrary integer costs: no bound on sizes or credits) *)
 Theorem C07_returns : forall A (cr : A -> str -> res sres), (forall a it, exists r, cr a it = inl r) ->
-  forall c (a : alt A) (li : list str) (D : Z), unit_on cr (al_items a) ->
-    (forall x it r, In x (al_items a) -> cr x it = inl r -> (Zpos (Qden (sr_grade r)) | D)%Z) ->
-    (0 < D)%Z -> (Z.of_nat (Nat.max (length (al_items a)) (length li)) * D < zmaxsize)%Z ->
+  forall c (a : alt A) (li : list str),
     (1 <= Nat.max (length (al_items a)) (length li))%nat ->
     (c_length_error c = false \/ length (al_items a) = length li) ->
     (c_missing_error c = false \/ Forall (fun it => is_blank it = false) li) ->
     exists r, check_items cr solveZ c a li = inl r.
 Proof. exact slg_returns. Qed.
+
+Theorem C07_returns_string : forall A (cr : A -> str -> res sres), (forall a it, exists r, cr a it = inl r) ->
+  forall c (a : alt A) (s : str),
+    (c_length_error c = false \/ length (al_items a) = length (split (c_delim c) s)) ->
+    (c_missing_error c = false \/ Forall (fun it => is_blank it = false) (split (c_delim c) s)) ->
+    exists r, check_response cr solveZ c a s = inl r.
+Proof. exact slg_returns_string. Qed.
 
 (* ---------------- the whole check: alternative lists, through the string ---------------- *)
 Theorem C07_best_alternative : forall A (cr : A -> str -> res sres) solve c answers s r,
